@@ -215,6 +215,8 @@ def run(rep, tier):
     from ..report import Renamed
     from . import C07
     C07.lua_marshalling_faults(Renamed(rep, {'R07.10': 'R16.11'}), fb)
+    from . import C15
+    C15.payload_atoms_are_data(rep, facts.FactBase(['src/uscxml/messages/Data.cpp']), 'R16.12')
     rep.covered(tus=len(TUS), extracted=fb.extracted, functions=len(fb.funcs))
     l2d = fb.fn('uscxml::getLuaAsData')
     d2l = fb.fn('uscxml::getDataAsLua')
